@@ -9,6 +9,9 @@ func scenarios(r *hxlib.Run) []scn {
 	var out []scn
 	id := 0
 	small := func() int { return 1 + r.Rng.Intn(6000) }
+	boundary := func() int {
+		return []int{1, 2, 16, 4095, 4096, 4097, 8191, 8192, 8193, 32767, 32768, 32769, 65535, 65536, 65537, 1 << 20}[r.Rng.Intn(16)]
+	}
 	multi := func() int { return 3<<20 + r.Rng.Intn(1<<20) }
 	perms := []string{"644", "600", "755", "640"}
 	add := func(s scn) {
@@ -118,20 +121,43 @@ func scenarios(r *hxlib.Run) []scn {
 		}
 		add(scn{Writer: "file-unpack", Old: old, OldLen: small(), NewLen: 50000 + small(), Fail: "corrupt"})
 	}
+	// history: every writer once more on a sandbox in which the same operation was interrupted before
+	for _, w := range []string{"rio-writefile", "rio-symlink", "create-atomic", "copy-atomic", "fstree-put", "fetch", "unpack-zip", "file-unpack"} {
+		old := "file"
+		switch w {
+		case "rio-symlink":
+			old = "symlink"
+		case "unpack-zip":
+			old = "absent"
+		}
+		v := ""
+		if w == "fstree-put" {
+			v, old = "nested", "absent"
+		}
+		add(scn{Writer: w, Old: old, OldLen: small(), NewLen: boundary(), Var: v, Pre: 3 + r.Rng.Intn(8)})
+	}
 	// seeded random scenarios
 	writers := []string{"rio-writefile", "rio-symlink", "create-atomic", "copy-atomic", "replace-atomic", "fstree-put", "fetch", "unpack-zip", "file-unpack"}
 	for i := 0; i < r.Budget(24, 400); i++ {
 		w := writers[r.Rng.Intn(len(writers))]
 		s := scn{Writer: w, OldLen: oldLen()}
-		switch r.Rng.Intn(8) {
+		// size class drawn uniformly: empty / tiny / small / chunk boundaries ±1 / medium / multi-MiB
+		switch r.Rng.Intn(6) {
 		case 0:
 			s.NewLen = 0
 		case 1:
-			s.NewLen = multi()
+			s.NewLen = 1 + r.Rng.Intn(16)
 		case 2:
+			s.NewLen = small()
+		case 3:
+			s.NewLen = boundary()
+		case 4:
 			s.NewLen = 60000 + r.Rng.Intn(200000)
 		default:
-			s.NewLen = small()
+			s.NewLen = multi()
+		}
+		if r.Rng.Intn(3) == 0 {
+			s.Pre = 1 + r.Rng.Intn(12)
 		}
 		s.TmpMode = []string{"same", "same", "cross", "bad"}[r.Rng.Intn(4)]
 		s.Old = []string{"absent", "file", "file", "file400"}[r.Rng.Intn(4)]
